@@ -152,7 +152,7 @@ fn case_from_desc(w: &World, desc: Descriptor<Key>) -> Option<(Case, bool)> {
             kind = if dumps.is_empty() { "trkey" } else { "tr" };
         }
     }
-    Some((Case { desc, kind, ms_dump: dumps, keys, abs, rel, internal }, all_sane))
+    Some((Case { desc, kind, ms_dump: dumps, exts: vec![], keys, abs, rel, internal }, all_sane))
 }
 
 fn is_tap(kind: &str) -> bool { kind == "tr" || kind == "trkey" }
